@@ -8,6 +8,18 @@ PY = "/venv/bin/python"
 
 # id -> (technique, level text, level note, design ref)
 CHECKS = {
+    "C03": (
+        "model-based stateful testing of document histories (Hypothesis RuleBasedStateMachine) with an independent package model and zipfile/os.walk + lxml C14N readers; bounded ddmin",
+        "Documents from the templates and the whole sample corpus (opened lazily by path, from BytesIO, from an independently written folder) go through generated edit/add/delete/set_part/read histories with saves in every packaging and reopen cycles; each saved package is compared part by part with the package model, the in-memory parts and the reopened document.",
+        "Trusts zipfile, lxml C14N and the package model (documented effects only); flat XML judged on well-formedness and content inclusion only.",
+        "DESIGN.md 3/C03",
+    ),
+    "C04": (
+        "stateful testing of document histories with a package validity predicate evaluated by zipfile and an independent manifest parser",
+        "Generated histories over all document types (add_file with repeated content, del_part, image frames, merge_styles_from, clone, save, reopen); every saved zip must have mimetype first/stored/extra-less and equal to the manifest root type, no duplicate names, and a manifest listing each file exactly once and nothing absent; source inconsistencies are exempt as baseline.",
+        "Directory entries of the manifest are not judged; set_part only on parts the manifest knows.",
+        "DESIGN.md 3/C04",
+    ),
     "C09": (
         "Hypothesis over (paragraph layout, sequence of mixed markup insertions, removals) with independent lxml projections (ODF white-space aware plain text, raw text offsets, linearised text with wrapper marks) as oracle",
         "Paragraphs assembled from generated pieces receive 1-4 generated insertions (span/link by regex or offset, bookmarks, reference marks, notes, annotations in every addressing form) and removals; the readable text must be unchanged, wrappers must hold exactly the regex matches / designated substring at the right place, empty marks must sit at the designated raw offset, compound forms must equal the documented pair of calls, unmatched addresses must leave the XML byte-identical.",
